@@ -6,7 +6,7 @@ From Coq Require Import List NArith.
 From Coq.Strings Require Import Byte.
 From GI Require Import Lib.Bytes Gen.TsParseConsts TsParse.TsParse TsParse.TsSpec TsParse.TsShape
   TsParse.TsHolds TsParse.TsParseFacts TsParse.TsEnvFacts TsParse.TsRegexFacts TsParse.TsCmpFacts
-  TsParse.TsHoldsFacts TsParse.TsShapeFacts.
+  TsParse.TsHoldsFacts TsParse.TsShapeFacts TsParse.TsUtf8Facts TsParse.TsFold TsParse.TsFoldFacts.
 Import ListNotations.
 
 (* any list of words survives quoting: nothing inside quotes is split, expanded or a comment
@@ -224,3 +224,30 @@ Print Assumptions C02_env_chain_snapshot.
 Theorem C02_holds_on : forall st cd line k v, c02_holds_on st cd line k v = true.
 Proof. exact c02_holds_on_true. Qed.
 Print Assumptions C02_holds_on.
+
+(* the UTF-8 automaton used by re_literal is the shared model of unicode/utf8.Valid *)
+Theorem C02_utf8_ok_is_utf8_valid : forall d : list byte, utf8_ok d = utf8_valid d.
+Proof. exact utf8_ok_is_utf8_valid. Qed.
+Print Assumptions C02_utf8_ok_is_utf8_valid.
+
+(* envvarname as a parameter (identity here, ToLower on Windows): the latest assignment to any
+   spelling of a name wins, the map agrees with the list up to folding; the model above is the
+   identity instance *)
+Theorem C02_latest_wins_fold : forall (fold : list byte -> list byte) st pre k k0 v post,
+  no_sep k -> fold k = fold k0 -> Forall (not_assign_f fold k0) post ->
+  getenv_f fold (cmd_env_f fold (pre ++ (k ++ ts_env_sep :: v) :: post) st) k0 = v.
+Proof. exact latest_wins_f. Qed.
+Print Assumptions C02_latest_wins_fold.
+
+Theorem C02_envmap_agrees_with_list_fold : forall (fold : list byte -> list byte) vars args,
+  consistent_f fold (cmd_env_f fold args (setup_env_f fold vars)).
+Proof. intros fold vars args. exact (cmd_env_consistent_f fold args _ (setup_consistent_f fold vars)). Qed.
+Print Assumptions C02_envmap_agrees_with_list_fold.
+
+Theorem C02_fold_id_is_model : forall st k v vars args,
+  getenv_f id_fold st k = getenv st k /\
+  setenv_f id_fold k v st = setenv k v st /\
+  setup_env_f id_fold vars = setup_env vars /\
+  cmd_env_f id_fold args st = cmd_env args st.
+Proof. exact fold_id_is_model. Qed.
+Print Assumptions C02_fold_id_is_model.
